@@ -114,6 +114,14 @@ func c19Inputs(seed uint64, p c19Params, src string) []toolInput {
 		in := toolInput{Name: "mut(" + src.Name + ")", Class: "mut", Grammar: mutateGrammar(r, src.Grammar), Flags: src.Flags}
 		ins = append(ins, in)
 	}
+	for i := 0; i < p.mut/2+4; i++ {
+		// the same texts with carriage returns before the line feeds
+		src := ins[r.intn(base)]
+		if src.Rebuild {
+			continue
+		}
+		ins = append(ins, crlfVariant(r, src))
+	}
 	return ins
 }
 
@@ -151,7 +159,13 @@ func runC19(tier string) int {
 		// the -o path sometimes already holds a longer file from an earlier run:
 		// what is generated must not depend on it
 		d.stale = d.outFile && rf.order%3 == 1
-		c := makeCase(fmt.Sprintf("%s-i%d-o%d", tag, rf.input, rf.order), ins[rf.input], d, simos.NoFaults(), o.mode, o.seed, 2)
+		// every other order reads the grammar in short, seeded chunks (a pipe whose
+		// writer pauses, a slow disk): how the bytes arrive is a schedule, not an input
+		f := simos.NoFaults()
+		if rf.order%2 == 1 {
+			f.InChunkSeed = o.seed | 1
+		}
+		c := makeCase(fmt.Sprintf("%s-i%d-o%d", tag, rf.input, rf.order), ins[rf.input], d, f, o.mode, o.seed, 2)
 		if ins[rf.input].Rebuild {
 			// library use with a fault in the process history, and with a build
 			// made before the grammar value is optimised (derived from the order's
@@ -161,6 +175,8 @@ func runC19(tier string) int {
 				c.RebuildVariant, c.RebuildFailAt = 1, int((o.seed>>16)%40000)
 			case v == 2 && contains(ins[rf.input].Flags, "-optimize-grammar"):
 				c.RebuildVariant = 2
+			case v == 3 || v == 2:
+				c.RebuildVariant = 3 // two builds at the same time
 			}
 		}
 		return c
@@ -377,7 +393,28 @@ func c19Minimise(tw *toolWorld, seed uint64, idx int, in toolInput, sigs map[str
 	// 1. the two cases alone, each in a fresh process
 	rp := &c19Replay{Input: in.Name, Grammar: string(in.Grammar), Sessions: [][]tooldriver.Case{{ca}, {cb}}, Target: [][2]int{{0, 0}, {1, 0}}}
 	kind := "map-order"
-	if !differs(rp) {
+	if ca.Faults.InChunkSeed != cb.Faults.InChunkSeed && differs(rp) {
+		// the two runs also differ in how the grammar bytes arrived: with the
+		// same map order on both sides, is the difference still there?
+		cb2 := cb
+		cb2.MapMode, cb2.MapSeed = ca.MapMode, ca.MapSeed
+		rp2 := &c19Replay{Input: in.Name, Grammar: string(in.Grammar), Sessions: [][]tooldriver.Case{{ca}, {cb2}}, Target: [][2]int{{0, 0}, {1, 0}}}
+		if differs(rp2) {
+			rp, kind = rp2, "read-chunking"
+		}
+	}
+	if kind == "map-order" && (ca.RebuildVariant == 3 || cb.RebuildVariant == 3) && differs(rp) {
+		// one side built while another build ran in the same process: without
+		// that second build, is the difference gone?
+		ca2, cb2 := ca, cb
+		ca2.RebuildVariant, cb2.RebuildVariant = 0, 0
+		if !differs(&c19Replay{Input: in.Name, Grammar: string(in.Grammar), Sessions: [][]tooldriver.Case{{ca2}, {cb2}}, Target: [][2]int{{0, 0}, {1, 0}}}) {
+			kind = "concurrent-builds"
+		}
+	}
+	if kind == "read-chunking" || kind == "concurrent-builds" {
+		// nothing more to establish
+	} else if !differs(rp) {
 		// 2. history matters: keep the session prefixes
 		rp = &c19Replay{Input: in.Name, Grammar: string(in.Grammar),
 			Sessions: [][]tooldriver.Case{append([]tooldriver.Case(nil), sessions[a.sess][:a.idx+1]...), append([]tooldriver.Case(nil), sessions[b.sess][:b.idx+1]...)},
@@ -407,7 +444,7 @@ func c19Minimise(tw *toolWorld, seed uint64, idx int, in toolInput, sigs map[str
 		// fresh processes: nothing replayable, nothing to report
 		return nil
 	}
-	if kind == "map-order" {
+	if kind == "map-order" || kind == "read-chunking" || kind == "concurrent-builds" {
 		// 3. reduce the grammar line by line (both target cases carry the same text)
 		setGrammar := func(rp *c19Replay, g []byte) {
 			for s := range rp.Sessions {
